@@ -4,4 +4,4 @@ Require Import ExtrOcamlBasic.
 From Adapt Require Import Num.Qaux Gen.Geometry.
 Extraction "c16_gen.ml"
   vecDir pointOnLine colinear inBetween segmentIntersect segmentShapeIntersect inValidRegion cornerSide
-  segmentIntersectPoint rayIntersectPoint manhattanDist inPoly inPolyGen.
+  segmentIntersectPoint rayIntersectPoint manhattanDist inPoly inPolyGen projection.
